@@ -136,6 +136,7 @@ type Opts struct {
 	Range      *Range
 	FromString bool
 	Env        string
+	EnvVal     string // value the harness exports for Env before the first call ("" = unset)
 	Inherit    bool
 }
 
